@@ -300,11 +300,15 @@ func (p *Prog) constLiteral(rel, name string) (keys []string, vals []string, ok 
 							}
 						}
 						tv, has := pk.TypesInfo.Types[v]
-						if !has || tv.Value == nil || tv.Value.Kind() != constant.String {
+						if !has || tv.Value == nil {
 							return nil, nil, false
 						}
 						keys = append(keys, ks)
-						vals = append(vals, constant.StringVal(tv.Value))
+						if tv.Value.Kind() == constant.String {
+							vals = append(vals, constant.StringVal(tv.Value))
+						} else {
+							vals = append(vals, tv.Value.ExactString())
+						}
 					}
 					return keys, vals, true
 				}
@@ -656,4 +660,13 @@ func c19Identity(c *Ctx) {
 		}
 	}
 	_ = sort.Strings
+}
+
+// constLiteral2: like constLiteral, with string keys unquoted.
+func (p *Prog) constLiteral2(rel, name string) ([]string, []string, bool) {
+	keys, vals, ok := p.constLiteral(rel, name)
+	for i, k := range keys {
+		keys[i] = strings.Trim(k, "\"")
+	}
+	return keys, vals, ok
 }
